@@ -17,6 +17,7 @@ import (
 	"strings"
 	"sync"
 	"time"
+	"unicode/utf8"
 
 	"connectrpc.com/conformance/internal"
 	cc "connectrpc.com/conformance/internal/app/connectconformance"
@@ -418,23 +419,50 @@ func c04LoopSuiteNamed(cases []string, names []string) (string, []string, []stri
 }
 
 // c04NameOK: what the transport between runner, client and reference server can carry as a test name
-// and the judge can tell apart: visible ASCII and blanks (the name travels in an HTTP header value),
-// no blank at either end, no line break; no pattern wildcard (the marking patterns are "V/**/<name>").
+// and the judge can tell apart.  A test name is DATA on every hop (suite file, protobuf string, the
+// x-test-case-name header of the request, the label of the reference server's feedback line, the
+// runner's line reader, the report), so everything is allowed that those hops can carry at all:
+// any valid UTF-8 (protobuf strings and JSON are UTF-8) — per-cent signs whether or not they look like
+// an escape (%25, %2F, %41, %zz, a trailing %), '+', '=', '&', '?', '#', quotes, backslash, upper and
+// lower case, non-ASCII (accents, CJK, symbols outside the BMP, combining marks, NBSP, compatibility
+// forms), a TAB inside, hundreds of characters.  Excluded is ONLY
+//   * what an HTTP header value cannot carry: control characters other than TAB (CR, LF, NUL, …, DEL
+//     — net/http refuses to send them) and a blank or TAB at either end (optional white space around a
+//     field value is not part of the value: RFC 9110 §5.5);
+//   * the pattern wildcard '*' and empty path components (the marking patterns are "V/**/<name>").
 // A name may hold the ": " that separates name and message on the reference server's feedback lines:
 // nothing validates test names, and the property speaks about every selected case (finding F32; the
 // random name pools do not contain it, two fixed scenarios do).
 func c04NameOK(n string) bool {
-	if n == "" || strings.HasPrefix(n, " ") || strings.HasSuffix(n, " ") ||
+	if n == "" || strings.HasPrefix(n, " ") || strings.HasSuffix(n, " ") || strings.HasPrefix(n, "\t") || strings.HasSuffix(n, "\t") ||
 		strings.Contains(n, "*") || strings.HasPrefix(n, "/") || strings.HasSuffix(n, "/") || strings.Contains(n, "//") {
 		return false
 	}
+	if !utf8.ValidString(n) {
+		return false
+	}
 	for _, r := range n {
-		if r < 0x20 || r > 0x7e {
+		if (r < 0x20 && r != '\t') || r == 0x7f {
 			return false
 		}
 	}
 	return true
 }
+
+// c04EscapeNames / c04UnicodeNames / c04CaseNames: test names that some layer between the runner's
+// request header and the report could be tempted to REWRITE (URL unescaping, form decoding of '+',
+// Unicode normalisation, case folding, truncation): they must arrive as they were sent.
+var c04EscapeNames = []string{"100%25-compressible", "a%2Fb", "%41bc", "%zz", "tail%", "%2", "%25", "%2f%2F", "%20x", "x%20",
+	"%E2%82%AC", "%00", "%0A", "%0d%0a-x", "%3A%20y", "a+b", "+", "c++", "k=v", "%u0041", "&amp;", "%%25", "%2525", "%7e", "a%2", "%g1%1g"}
+var c04UnicodeNames = []string{"caf\u00e9", "na\u00efve-\u00fc", "\u65e5\u672c\u8a9e", "\u20acuro", "smile-\U0001F600", "\u03a9mega", "\u0130stanbul", "\u01c5",
+	"a\u00a0b", "e\u0301", "\ufb01", "\uff26\uff55\uff4c\uff4c", "\u212a", "\u017f", "tab\there", "zw\u200bj", "\ufeffbom", "\u0085nel", "rtl-\u05d0\u05d1"}
+var c04CaseNames = []string{"MiXeD", "UPPER", "lower", "Stra\u00dfe", "STRASSE", "X-Test-Case-Name", "content-TYPE",
+	strings.Repeat("long-", 60) + "x", strings.Repeat("%41", 50), strings.Repeat("\u00e9", 120)}
+
+// c04TwinNames: pairs of names that a normalising hop would identify.  Both are in the same batch, the
+// client deviates on the first only: the complaint belongs to the first and to nobody else.
+var c04TwinNames = [][2]string{{"a%41", "aA"}, {"Abc", "abc"}, {"e\u0301", "\u00e9"}, {"a+b", "a b"}, {"\u212a", "K"}, {"x%2Fy", "x/y"},
+	{"%25", "%"}, {"%2525", "%25"}, {"q%3A%20r", "q"}, {"\uff21", "A"}, {"a%20b", "a b"}, {"tab\there", "tab here"}, {"caf\u00e9", "caf\u00c3\u00a9"}}
 
 func c04RunLoop(c *gen.Ctx, in c04LoopIn) c04LoopOut {
 	// inputs mutated by the shrinker / the neighbourhood search may be malformed: not a scenario
@@ -697,6 +725,13 @@ func c04LoopGen(c *gen.Ctx) {
 		{"a b", "two  blanks", "spaced out name", "(x)"},                                   // blanks
 		{"grp/50%", "a/b/c", "x/%s", "deep/er/na:me"},                                                             // further path components
 		{"n=1&m=2", "$HOME", "`id`", "a;b", "<x>", "\"quoted\"", "back\\slash", "{a,b}", "[1]", "~", "#c", "?q", "!bang", "'s'"},
+		c04EscapeNames,  // valid and invalid per-cent escapes, '+', '='
+		c04UnicodeNames, // non-ASCII UTF-8, a TAB inside
+		c04CaseNames,    // upper / lower case, header-like names, hundreds of characters
+	}
+	var allAtoms []string
+	for _, cl := range oddClasses {
+		allAtoms = append(allAtoms, cl...)
 	}
 	tampers := []string{"dup", "codec", "compression", "method"}
 	codes0 := []string{"ru", "rf", "rk", "wu", "wf", "wk"}
@@ -710,6 +745,20 @@ func c04LoopGen(c *gen.Ctx) {
 				name = fmt.Sprintf("n%d-", j) + gen.Pick(r, cl)
 				if r.Chance(1, 4) {
 					name = gen.Pick(r, cl) + fmt.Sprintf("/n%d", j)
+				} else if r.Chance(1, 4) {
+					// a composition over the whole alphabet: an atom of this class among 1-3 others
+					name = fmt.Sprintf("n%d-", j)
+					at := r.Range(0, 2)
+					for a, m := 0, r.Range(2, 4); a < m; a++ {
+						if a == at {
+							name += gen.Pick(r, cl)
+						} else {
+							name += gen.Pick(r, allAtoms)
+						}
+					}
+					if len(name) > 900 {
+						name = ""
+					}
 				}
 			}
 			in.Names = append(in.Names, name)
@@ -781,6 +830,33 @@ func c04LoopGen(c *gen.Ctx) {
 	addX(c04LoopIn{Layout: 2, MaxServers: 4, Cases: []string{"rf", "ru"}, Tamper: []string{gen.Pick(r, tampers), ""}, K: -1, Stop: "serve", Quiet: true})
 	addX(c04LoopIn{Layout: 1, MaxServers: 1, Cases: []string{"rf", "rk"}, Names: []string{"n0-100%", "n1-%d"}, Tamper: []string{"dup", "method"}, K: -1, Stop: "serve"})
 	addX(c04LoopIn{Layout: 1, MaxServers: 1, Cases: []string{"ru", "ru", "ru"}, Names: []string{"n0-%s", "n1-a b", "n2-q:x"}, Tamper: []string{"codec", "codec", "codec"}, K: 2, Stop: "exit0"})
+	// NAMES ARE NOT REWRITTEN ON ANY HOP: a name holding a VALID per-cent escape on an unmarked, otherwise
+	// passing case whose request deviates (fixed, in every run, with and without -v), and twins — two
+	// names of one batch that a normalising hop (URL unescaping, '+' as blank, case folding, Unicode
+	// normalisation, Latin-1 decoding) would identify, the client deviating on the first only: the
+	// complaint fails the first and nobody else
+	addX(c04LoopIn{Layout: 1, MaxServers: 1, Cases: []string{"ru", "ru"}, Names: []string{"n0-wrong-codec-100%25-compressible", "n1-a%2Fb+c%41"},
+		Tamper: []string{gen.Pick(r, tampers), gen.Pick(r, tampers)}, K: -1, Stop: "serve", Quiet: r.Bool()})
+	nTwin := 2
+	if c.Thorough() {
+		nTwin = 2 * len(c04TwinNames)
+	}
+	for i := 0; i < nTwin; i++ {
+		tw := c04TwinNames[i%len(c04TwinNames)]
+		if !c.Thorough() && i > 0 {
+			tw = gen.Pick(r, c04TwinNames[1:])
+		}
+		a, b := "t-"+tw[0], "t-"+tw[1]
+		if i > 0 && r.Bool() {
+			a, b = b, a // the deviating case is the plain one
+		}
+		second := "ru"
+		if i > 0 {
+			second = gen.Pick(r, []string{"ru", "ru", "rf"})
+		}
+		addX(c04LoopIn{Layout: gen.Pick(r, []int{1, 1, 2}), MaxServers: gen.Pick(r, []int{1, 4}), Cases: []string{"ru", second},
+			Names: []string{a, b}, Tamper: []string{gen.Pick(r, tampers), ""}, K: -1, Stop: "serve", Quiet: r.Bool()})
+	}
 	nRand := 6
 	if c.Thorough() {
 		nRand = 120
